@@ -384,6 +384,12 @@ pub(crate) fn get_data_type(
             let fsb = field
                 .type_as_fixed_size_binary()
                 .ok_or_else(|| type_err("fixed size binary"))?;
+            if fsb.byteWidth() < 0 {
+                return Err(ArrowError::ParseError(format!(
+                    "FixedSizeBinary type with negative byte width {} not supported",
+                    fsb.byteWidth()
+                )));
+            }
             DataType::FixedSizeBinary(fsb.byteWidth())
         }
         crate::Type::FloatingPoint => {
@@ -503,6 +509,12 @@ pub(crate) fn get_data_type(
             let fsl = field
                 .type_as_fixed_size_list()
                 .ok_or_else(|| type_err("fixed size list"))?;
+            if fsl.listSize() < 0 {
+                return Err(ArrowError::ParseError(format!(
+                    "FixedSizeList type with negative list size {} not supported",
+                    fsl.listSize()
+                )));
+            }
             DataType::FixedSizeList(Arc::new(try_field_from(child)?), fsl.listSize())
         }
         crate::Type::Struct_ => {
